@@ -488,6 +488,7 @@ def run(ch: Checker) -> None:
     ch.rule('C01.17', 'one readiness event pays for one non-blocking read: in the connection class and the event handlers a receive on a connection is not repeated on a path and not placed in a loop (relayed bytes are neither lost nor delayed by a read that no readiness event covers)', 4)
     from .common import single_recv_check
     single_recv_check(ch, 'C01.17')
+    ch.import_rules('C11', {'C11.11': 'C01.19'}, 'bytes a client sends over a TLS client connection all reach the other side only if one receive takes a whole TLS record: what a shorter receive leaves decrypted inside the SSL object is not announced by the selector again')
     ch.import_rules('C05', {'C05.8': 'C01.18'}, 'a relay keeps working for the next exchange of the worker only if no socket is closed while its number is still registered')
     ch.import_rules('C05', {'C05.7': 'C01.14'}, 'the relay parses what it relays: a chunk size accepted without the range check (or rejected for a reason other than being out of range) ends the exchange mid-stream')
 
